@@ -919,7 +919,7 @@ class SpaceTest(object):
                 y = x.copy()
                 correct = _approx_equal(x, y, self.tol)
                 if not correct:
-                    counter.fail('failed with x={:s5s}'
+                    counter.fail('failed with x={:25s}'
                                  ''.format(n_x))
 
                 # modify y, x stays the same
